@@ -45,9 +45,9 @@ func init() {
 		},
 		Bound: func(tier string) string {
 			if tier == "thorough" {
-				return "value leg: field sequences of length 1-2 (full alphabet, all value vectors) and 3 (thinned alphabet, {first,last} values), 14 named types; history leg: all orders over 7 target types up to length 4, dedup on registry state, private and default recomposer"
+				return "value leg: field sequences of length 1-2 (full alphabet, all value vectors) and 3 (thinned alphabet, {first,last} values), 14 named types; history leg: all orders over 9 target types (named, same-named from another package, anonymous, same-named declared inside two functions) up to length 4, dedup on registry state, private and default recomposer"
 			}
-			return "value leg: field sequences of length 1-2 (full alphabet, all value vectors), 14 named types; history leg: all orders over 7 target types up to length 3, dedup on registry state, private and default recomposer"
+			return "value leg: field sequences of length 1-2 (full alphabet, all value vectors), 14 named types; history leg: all orders over 9 target types (named, same-named from another package, anonymous, same-named declared inside two functions) up to length 3, dedup on registry state, private and default recomposer"
 		},
 	})
 }
